@@ -480,6 +480,10 @@ func (w *World) readerParked() bool {
 	return c.readWaiting > 0 && c.avail() == 0 && !c.closed && c.pendingReadErr() == nil && !c.pendingStall
 }
 
+// ReaderParked0 is ReaderParked with Mu held: the read routine is inside a
+// ReadSlices invocation (state "run"), whether blocked in Read or busy.
+func (w *World) ReaderParked0() bool { return w.readerState == "run" }
+
 // ReaderParked tells whether the read routine sits in Read with nothing to
 // deliver, i.e. inside a ReadSlices invocation.
 func (w *World) ReaderParked() bool {
